@@ -120,6 +120,8 @@ class Tr:
             name = f.attr
             if name == "close" and isinstance(f.value, ast.Name) and f.value.id in stack_names:
                 return ("ev", "unlock")
+            if name == "_read_xml_request_body":
+                return ("ev", "xml")
             if name in READ:
                 return ("ev", "read")
             if name in WRITE:
@@ -343,19 +345,60 @@ def to_json(t):
 METHODS = ["DELETE", "GET", "HEAD", "MKCALENDAR", "MKCOL", "MOVE", "OPTIONS", "POST", "PROPFIND", "PROPPATCH", "PUT", "REPORT"]
 
 
-def generate(repo="/repo"):
+XML_PARSE_NAMES = {"fromstring", "XML", "parse", "iterparse", "XMLParser", "XMLPullParser", "parseString"}
+
+
+def xml_parser_calls(repo="/repo"):
+    """every call in radicale/app/*.py and radicale/xmlutils.py, httputils.py that parses XML text: (file, callee as written)"""
+    out = []
+    base = os.path.join(repo, "radicale")
+    files = [os.path.join(base, "app", f) for f in sorted(os.listdir(os.path.join(base, "app"))) if f.endswith(".py")]
+    files += [os.path.join(base, f) for f in ("xmlutils.py", "httputils.py")]
+    for fp in files:
+        tree = ast.parse(open(fp).read(), fp)
+        for node in ast.walk(tree):
+            if isinstance(node, ast.Call):
+                f = node.func
+                if isinstance(f, ast.Attribute) and f.attr in XML_PARSE_NAMES:
+                    recv = f.value
+                    rname = recv.id if isinstance(recv, ast.Name) else ast.unparse(recv)
+                    if rname in ("urlparse", "urllib", "parse", "json", "email", "vobject", "dateutil", "datetime", "time", "posixpath"):
+                        continue
+                    if f.attr == "parse" and rname not in ("ET", "DefusedET", "etree", "minidom", "sax", "ElementTree"):
+                        continue
+                    out.append((os.path.relpath(fp, repo), "%s.%s" % (rname, f.attr)))
+                elif isinstance(f, ast.Name) and f.id in XML_PARSE_NAMES and f.id != "parse":
+                    out.append((os.path.relpath(fp, repo), f.id))
+    # what the names stand for (import table of app/base.py)
+    imports = {}
+    tree = ast.parse(open(os.path.join(base, "app", "base.py")).read())
+    for node in tree.body:
+        if isinstance(node, ast.Import):
+            for a in node.names:
+                imports[a.asname or a.name] = a.name
+        elif isinstance(node, ast.ImportFrom):
+            for a in node.names:
+                imports[a.asname or a.name] = "%s.%s" % (node.module, a.name)
+    return out, imports
+
+
+def generate(repo="/repo", with_do=False):
     tr = Tr(os.path.join(repo, "radicale", "app"))
     outer = tr.handle_request()
     out = {}
+    do = {}
     for m in METHODS:
         h = tr.handler(m)
         if h is None:
             continue
         out[m] = simplify(fill(outer, h))
+        do[m] = simplify(h)
+    if with_do:
+        return out, do, tr.notes
     return out, tr.notes
 
 
-def write_lean(skeletons, path):
+def write_lean(skeletons, path, do=None, parser_calls=None, imports=None):
     lines = ["import RadicaleModel.Skeleton",
              "/- GENERATED by harness/skeleton.py from /repo/radicale/app/*.py - do not edit -/",
              "namespace Generated", "open Radicale.Skeleton", ""]
@@ -363,6 +406,18 @@ def write_lean(skeletons, path):
         lines.append("def sk_%s : Sk :=\n  %s\n" % (m, to_lean(t)))
     lines.append("def handlers : List (String × Sk) := [%s]" % ", ".join('("%s", sk_%s)' % (m, m) for m in skeletons))
     lines.append("")
+    if do is not None:
+        lines.append("/-- the `do_*` handlers alone (what runs after authentication and home creation) -/")
+        for m, t in do.items():
+            lines.append("def do_%s : Sk :=\n  %s\n" % (m, to_lean(t)))
+        lines.append("def doHandlers : List (String × Sk) := [%s]" % ", ".join('("%s", do_%s)' % (m, m) for m in do))
+        lines.append("")
+    if parser_calls is not None:
+        lines.append("/-- every call in radicale/app, xmlutils.py, httputils.py that parses XML text: (file, callee) -/")
+        lines.append("def xmlParserCalls : List (String × String) := [%s]" % ", ".join('("%s", "%s")' % c for c in parser_calls))
+        lines.append("/-- what `DefusedET` is bound to in radicale/app/base.py -/")
+        lines.append('def defusedETModule : String := "%s"' % (imports or {}).get("DefusedET", "?"))
+        lines.append("")
     lines.append("end Generated")
     text = "\n".join(lines) + "\n"
     os.makedirs(os.path.dirname(path), exist_ok=True)
@@ -374,9 +429,11 @@ def write_lean(skeletons, path):
 
 
 if __name__ == "__main__":
-    sk, notes = generate(sys.argv[1] if len(sys.argv) > 1 else "/repo")
+    repo = sys.argv[1] if len(sys.argv) > 1 else "/repo"
+    sk, do, notes = generate(repo, with_do=True)
+    calls, imports = xml_parser_calls(repo)
     here = os.path.dirname(os.path.dirname(os.path.abspath(__file__)))
-    write_lean(sk, os.path.join(here, "lean", "Generated", "Skeleton.lean"))
+    write_lean(sk, os.path.join(here, "lean", "Generated", "Skeleton.lean"), do, calls, imports)
     for m, t in sk.items():
         print(m, len(to_lean(t)))
     for n in sorted(set(notes)):
